@@ -44,6 +44,7 @@ func (c20) Classes() []sim.Class {
 		cs = append(cs,
 			sim.Class{Name: "all", Engine: e, Quick: 2000, Thorough: 80000, RunTimeoutSec: 60},
 			sim.Class{Name: "subset", Engine: e, Quick: 1500, Thorough: 60000, RunTimeoutSec: 60},
+			sim.Class{Name: "subsets-large", Engine: e, Quick: 300, Thorough: 12000, RunTimeoutSec: 60},
 			sim.Class{Name: "deep", Engine: e, Quick: 60, Thorough: 2000, RunTimeoutSec: 60},
 		)
 	}
@@ -99,6 +100,12 @@ func run(t *tape.Tape, cfg sim.Config, listen bool) (res sim.Result) {
 	default:
 		r.opts = classOpts{faultRate: 4, reenter: true, exit: true}
 	}
+	if cfg.Class == "subsets-large" {
+		// more functions than one 64-bit word; each instance is a separate compilation of the same
+		// binary with its own listener selection, the selections differing around word boundaries
+		o.MinFuncs, o.MaxFuncs, o.MaxAtoms = 66, 140, 3
+		r.opts = classOpts{faultRate: 2}
+	}
 	pa := plan.Generate(t, o)
 	pa.Name = "pa"
 	ob := o
@@ -121,6 +128,39 @@ func run(t *tape.Tape, cfg sim.Config, listen bool) (res sim.Result) {
 		if t.Chance(1, 2) {
 			r.subset["env.h"] = true
 		}
+	}
+	if listen && cfg.Class == "subsets-large" {
+		base := map[string]bool{"env.h": t.Chance(1, 2)}
+		for i := range pa.Funcs {
+			if t.Chance(1, 3) {
+				base[fmt.Sprintf("pa.f%d", i)] = true
+			}
+		}
+		// functions 64 positions after a selected one (deterministic order)
+		var aliases []int
+		for i := range pa.Funcs {
+			if base[fmt.Sprintf("pa.f%d", i)] && i+64 < len(pa.Funcs) {
+				aliases = append(aliases, i+64)
+			}
+		}
+		mk := func() map[string]bool {
+			m := map[string]bool{}
+			for k, v := range base {
+				m[k] = v
+			}
+			// differ from the base selection only at a few functions, preferably 64 positions away from a selected one
+			for n := 1 + t.Choose(3); n > 0; n-- {
+				j := t.Choose(len(pa.Funcs))
+				if len(aliases) > 0 && t.Chance(2, 3) {
+					j = aliases[t.Choose(len(aliases))]
+				}
+				name := fmt.Sprintf("pa.f%d", j)
+				m[name] = !m[name]
+			}
+			return m
+		}
+		r.subset = base
+		r.instSubset = []map[string]bool{mk(), mk(), nil}
 	}
 	r.setup([]*plan.Plan{pa, pa, pb}, []string{"a", "", "b"}, []int{-1, -1, 0})
 	defer r.rt.Close(r.ctx)
